@@ -344,6 +344,14 @@ func (t *Transpiler) transpileSubqueryExpr(e *parser.SubqueryExpr) (influxql.Nod
 	if stmt, ok := node.(*influxql.SelectStatement); ok {
 		ReinitTimeWindowOffset(stmt, t.minT, rangeMillis, t.Step)
 	}
+	if _, ok := e.Expr.(*parser.StepInvariantExpr); !ok {
+		// Only an inner expression that is step invariant as a whole yields one row that stands for every
+		// step of the subquery. A step invariant operand somewhere inside it - the parenthesised literal of
+		// `(m + (1.75))[90s:30s]`, the right side of `(m * m @ start())[..]` - also raised the flag, and
+		// PromStepInvariant copied the value of every series that happened to have a sample at the first
+		// step only (the series ended there) to all the later steps.
+		t.lowerStepInvariant = false
+	}
 	t.subStartT = newStartTime
 	t.subEndT = newEndTime
 	t.minT, t.maxT, t.Step = preMinT, preMaxT, preInterval
